@@ -77,7 +77,14 @@ theorem backproject_shape (interp : Nat → (Int → ℝ) → ℝ → ℝ) (D : 
 theorem iradonTorch_shape (sino : List (List ℝ)) (thetas : Option (List ℝ)) (name : FilterName) (circle : Bool) :
     (iradonTorch sino thetas name circle).length = outputSize (R := ℝ) (sino.headD []).length circle ∧
     ∀ row ∈ iradonTorch sino thetas name circle, row.length = outputSize (R := ℝ) (sino.headD []).length circle := by
-  unfold iradonTorch
+  unfold iradonTorch iradonTorchOut
+  exact backproject_shape _ _ _ _ _ _
+
+theorem iradonTorchOut_shape (sino : List (List ℝ)) (thetas : Option (List ℝ)) (name : FilterName) (circle : Bool)
+    (out : Nat) :
+    (iradonTorchOut sino thetas name circle out).length = out ∧
+    ∀ row ∈ iradonTorchOut sino thetas name circle out, row.length = out := by
+  unfold iradonTorchOut
   exact backproject_shape _ _ _ _ _ _
 
 end QuantemModel.Radon
